@@ -564,6 +564,19 @@ func (e *Engine) Resize(size int64, how string) {
 		e.Fail("C16", "resize:size-not-reported", fmt.Sprintf("after resize to %d Status() reports %d (state %s)", size, info.Size, st))
 		return
 	}
+	// the new size is on disk when the call returns: the directory as it is now (what a crash would leave behind;
+	// no Close has rewritten the metadata) opens with the new size and reads like the model
+	if got, img, err := e.openCopy(); err != nil {
+		e.Fail("C16", "resize:copy-of-directory-unopenable", fmt.Sprintf("after resize to %d a copy of the directory cannot be opened: %v", size, err))
+		return
+	} else if got != size {
+		e.Fail("C16", "resize:size-not-persisted", fmt.Sprintf("resize %d -> %d returned success, but a copy of the directory taken right afterwards opens with size %d", old, size, got))
+		return
+	} else if d, n := Diff(img, 0, e.M.Live); d != "" {
+		e.Fail("C16", "resize:persisted-image-differs", fmt.Sprintf("a copy of the directory taken right after the resize reads differently in %d sectors; first: %s", n, d))
+		return
+	}
+	e.Res.Count("resize_persistence_checks", 1)
 	// the added range reads as zeros
 	if size > old {
 		buf := make([]byte, size-old)
@@ -591,6 +604,31 @@ func (e *Engine) SetCheckpoint(name string) {
 }
 
 // ---------------------------------------------------------------- oracles at quiescent points
+
+// openCopy opens an extent-exact copy of the directory (preload on, reclamation
+// off) and returns the size it reports and the live image it reads.
+func (e *Engine) openCopy() (int64, []byte, error) {
+	tmp := e.Dir + ".roc"
+	os.RemoveAll(tmp)
+	defer os.RemoveAll(tmp)
+	if err := fsx.CopyDir(e.Dir, tmp); err != nil {
+		return 0, nil, fmt.Errorf("copy: %v", err)
+	}
+	save := types.ShouldPunchHoles
+	types.ShouldPunchHoles = false
+	defer func() { types.ShouldPunchHoles = save }()
+	r, err := replica.New(true, e.M.Size, 512, tmp, nil, "")
+	if err != nil {
+		return 0, nil, fmt.Errorf("open copy: %v", err)
+	}
+	defer r.Close()
+	size := r.Info().Size
+	buf := make([]byte, size)
+	if _, err := r.ReadAt(buf, 0); err != nil {
+		return size, nil, fmt.Errorf("read copy: %v", err)
+	}
+	return size, buf, nil
+}
 
 // RevertOnCopy returns the volume image of snapshot name, obtained by reverting
 // an extent-exact copy of the directory (the live directory is not touched).
